@@ -1,7 +1,7 @@
 (* Property C20 — the external-engine driver pairs each request with its reply under any
    chunking.  Statements only.  Framing.v: the delimiter scanner [frame_end] (where serde_json's
    stream deserializer stops on an object reply), the FramedRead pull loop [next]/[nexts]. *)
-From SLT Require Import Framing FramingProofs.
+From SLT Require Import Framing FramingProofs JsonProofs.
 
 (* for all reply sequences and ALL ways of cutting their concatenation (followed by anything) into
    chunks - no bound on number or size, cuts inside multi-byte characters and escapes included -
@@ -32,3 +32,15 @@ Theorem C20_prefix_incomplete :
   forall f p q, is_frame f -> f = p ++ q -> q <> [] -> frame_end p = None.
 Proof. exact frame_prefix_none. Qed.
 Print Assumptions C20_prefix_incomplete.
+
+(* request direction: the SQL text is recovered from the escaped request body by the reference
+   unescaper, for every text; hence distinct SQL texts give distinct request bytes *)
+Theorem C20_request_roundtrip :
+  forall sql f, (length sql < f)%nat -> json_unescape f (json_escape sql) = Some sql.
+Proof. exact unescape_escape. Qed.
+Print Assumptions C20_request_roundtrip.
+
+Theorem C20_request_injective :
+  forall a b, request_text a = request_text b -> a = b.
+Proof. exact request_injective. Qed.
+Print Assumptions C20_request_injective.
